@@ -53,41 +53,39 @@ def observe (d : DS) (s : S) : DS × String :=
   let items := String.intercalate "," (s.wl.map showItem)
   let pend := pending d.g s.wl
   let acc := if s.closed then "-" else s!"{alen}:{ahash}"
-  let str := s!"closed={b2s s.closed} left={s.left} wl=[{items}] pend={pend.length}:{Drv.fnv pend} acc={acc} wadded={b2s s.isWAdded} reg={b2s s.reg} kout={b2s (s.reg && s.kOut)} dis={b2s s.disarmed} ctl=[{ctl}] wire={wlen}:{whash} onclose={s.onClose} wtimer={b2s s.wTimer}"
+  let edge := if d.g.mode == .et && s.reg && !s.closed then b2s s.edgeDue else "-"
+  let str := s!"closed={b2s s.closed} left={s.left} wl=[{items}] pend={pend.length}:{Drv.fnv pend} acc={acc} wadded={b2s s.isWAdded} reg={b2s s.reg} kout={b2s (s.reg && s.kOut)} dis={b2s s.disarmed} edge={edge} ctl=[{ctl}] wire={wlen}:{whash} onclose={s.onClose} wtimer={b2s s.wTimer}"
   ({ d with s := { s with wire := [], accepted := [] }, wlen, whash, alen, ahash, nctl := s.ctl.length }, str)
 
 inductive Call
-  | write (b : Bytes) (k : KAns)
-  | writev (bs : List Bytes) (k : KAns)
+  | write (b : Bytes) (ks : List KAns)
+  | writev (bs : List Bytes) (ks : List KAns)
   | sendfile (off len : Nat) (ks : List KAns)
 
 /-- "write <payload> K=<k>" | "writev <m> <payload>… K=<k>" | "sendfile <off> <len> K=<ks>" -/
 def parseCall (g : Cfg) (ws : List String) : Option Call := do
   let ks ← parseKs ((Drv.field ws "K").getD "-")
-  let k1 : KAns := ks.headD .eagain
   match ws with
-  | ["write", p, _] => some (.write (Drv.payload p) k1)
+  | ["write", p, _] => some (.write (Drv.payload p) ks)
   | "writev" :: m :: rest =>
     let m ← m.toNat?
-    if rest.length ≠ m + 1 then none else some (.writev ((rest.take m).map Drv.payload) k1)
+    if rest.length ≠ m + 1 then none else some (.writev ((rest.take m).map Drv.payload) ks)
   | ["sendfile", off, len, _] =>
     let off ← off.toNat?
     let len ← len.toNat?
     if off > g.fsize then none else some (.sendfile off len ks)
   | _ => none
 
+/-- the model's step functions for the three calls (`ConnFull.step` is defined through the same) -/
 def rawCall (g : Cfg) (s : S) : Call → S × Ret
-  | .write b k => write g s b k
-  | .writev bs k => writev g s bs k
-  | .sendfile off len ks => sendfile g s off len ks
+  | .write b ks => writeOp g s b ks
+  | .writev bs ks => writevOp g s bs ks
+  | .sendfile off len ks => sendfileOp g s off len ks
 
 /-- a call of the sequential harness: if it flipped the flag (fatal error) its own goroutine runs the
     teardown right after the unlock -/
 def doCall (g : Cfg) (s : S) (c : Call) : S × Ret :=
-  let r := match c with
-    | .write b k => write g s b k
-    | .writev bs k => writev g s bs k
-    | .sendfile off len ks => sendfile g s off len ks
+  let r := rawCall g s c
   (teardown r.1, r.2)
 
 def parseMode (s : String) : Option Mode :=
@@ -122,14 +120,14 @@ partial def loop (h : IO.FS.Stream) (d : DS) : IO Unit := do
       let dial := Drv.field cfg "dial" == some "1"
       -- open callback: the calls run before registration; DialAsync: addDialer first, then the connect
       -- completes (EPOLLOUT) and the calls run inside the connected callback
-      let mut d : DS := { g, s := if dial then evTake g (registerDial g {}) true false false [] else {} }
+      let mut d : DS := { g, s := if dial then evTakeOp g (registerDialOp g {}) true false false [] else {} }
       let mut rs : List String := []
       for c in ow do
         let (s, r) := doCall g d.s c
         rs := rs ++ [showRet r]
         let (d', _) := observe d s
         d := d'
-      let (d', str) := observe { d with nctl := 0 } (if dial then teardown (evEnd g d.s) else register g d.s)
+      let (d', str) := observe { d with nctl := 0 } (if dial then teardown (evEnd g d.s) else registerOp g d.s)
       if d'.s.hung then IO.println hungLine; loop h { d' with dead := true }
       else IO.println s!"R ow={String.intercalate ";" rs} {str}"; loop h d'
   | "O" :: rest =>
@@ -146,8 +144,8 @@ partial def loop (h : IO.FS.Stream) (d : DS) : IO Unit := do
       match ks, cb, race with
       | some ks, some cb, some race =>
         let out := bits.contains 'o'; let inn := bits.contains 'i'; let err := bits.contains 'e'
-        let dl := deliverable d.s out inn err
-        let s1 := evTake d.g d.s out inn err ks
+        let dl := evDeliv d.g d.s out inn err
+        let s1 := evTakeOp d.g d.s out inn err ks
         let (d1, _) := observe d s1
         -- the data callback runs its call while the event is being handled
         let (d2, cbs) := match cb with
